@@ -280,6 +280,38 @@ def run(ctx, p):
                                 worst, wf = float(dd.max()), f
                     ctx.observe("api.container", name, okn and worst <= 1e-12, branch="integer-valued positions as " + label, measure=worst, tol=1e-12,
                                 detail=dict(field=wf, points=q.tolist()[:6], t=t, params={k: v for k, v in d["passed"].items() if isinstance(v, (int, float, str))}))
+    # ---- a whole-number time given as int / numpy integer / numpy float: 2 and 2.0 are the same time --------------------
+    # (whatever the float call returns - values, NaN outside the domain - the others must return as well)
+    if cheap and rep % 3 == 1:
+        ti = float(max(1, round(t)))
+        try:
+            Ft = ctx.call(s, np.array(a, copy=True), ti)
+        except SolverRaised:
+            Ft = None
+            ctx.count("whole_number_time_refused_as_float:" + name)
+        if Ft is not None:
+            for label, tv in (("int", int(ti)), ("numpy.int64", np.int64(ti)), ("numpy.float64", np.float64(ti))):
+                try:
+                    It = ctx.call(s, np.array(a, copy=True), tv)
+                except SolverRaised as ex:
+                    ctx.observe("api.container", name, False, branch="whole-number time given as " + label, detail=dict(raised=str(ex)[:200], t=ti))
+                    continue
+                worst, wf = 0.0, None
+                okn = len(It) == len(Ft) and It.dtype.names == Ft.dtype.names
+                if okn:
+                    for f in Ft.dtype.names:
+                        if Ft[f].dtype.kind not in "fiu":
+                            continue
+                        x, y = np.asarray(Ft[f], float), np.asarray(It[f], float)
+                        sc = np.maximum(np.abs(x), np.abs(y))
+                        with np.errstate(all="ignore"):
+                            dd = np.abs(x - y) / np.where((sc > 0) & np.isfinite(sc), sc, 1.0)
+                        dd = np.where((x == y) | (np.isnan(x) & np.isnan(y)), 0.0, dd)
+                        dd = np.where(np.isnan(dd), np.inf, dd)
+                        if dd.size and float(dd.max()) > worst:
+                            worst, wf = float(dd.max()), f
+                ctx.observe("api.container", name, okn and worst <= 1e-12, branch="whole-number time given as " + label, measure=worst, tol=1e-12,
+                            detail=dict(field=wf, t=ti, params={k: v for k, v in d["passed"].items() if isinstance(v, (int, float, str))}))
     # ---- order: permutation and duplicates (not for solvers whose grid is the point set) ---------------
     m = len(sol)
     if not e["grid"] and m >= 2 and cheap:
